@@ -134,7 +134,7 @@ def make(trees=TREES, reduced=False, preset_structure=False):
                     sti.insert_output_version(TaskIdentifier.from_str(r_[0]), Version(r_[1], r_[2], bool(r_[3])))
                 sti.insert_output_version(TaskIdentifier.from_str("//zz:stale"), Version(77, None, False))
                 sti.commit_changes()
-                sti._conn.close()
+                sti = None
                 g.goal("temporary archive index left by a killed archive")
             before_rows = A.index_rows()
             before_dig = hrun.tree_digest(A.out, exclude=("version_index.sqlite", "version_index_archive.sqlite"))
